@@ -109,9 +109,13 @@ func (e *Env) locName(p *Ptr, l Leaf) (string, string) {
 	prefix := fieldPathString(p.Root, p.Path)
 	switch p.Kind {
 	case "obj":
-		return "F!" + typeKey(p.Root) + "!" + prefix + l.Path, heapSort("F", l.Sort, "")
+		n := "F!" + typeKey(p.Root) + "!" + prefix + l.Path
+		e.leafTypes[n] = l.Typ
+		return n, heapSort("F", l.Sort, "")
 	case "elem":
-		return "E!" + typeKey(p.Root) + "!" + prefix + l.Path, heapSort("E", l.Sort, "")
+		n := "E!" + typeKey(p.Root) + "!" + prefix + l.Path
+		e.leafTypes[n] = l.Typ
+		return n, heapSort("E", l.Sort, "")
 	}
 	unsupp("locName kind %s", p.Kind)
 	return "", ""
@@ -253,7 +257,7 @@ func (e *Env) alloc(st *State) string {
 func (e *Env) allocObj(st *State, t types.Type, init Value) *Ptr {
 	r := e.alloc(st)
 	ptrT := types.NewPointer(t)
-	if at, ok := t.Underlying().(*types.Array); ok {
+	if at, ok := t.Underlying().(*types.Array); ok && !isByte(at.Elem()) {
 		p := &Ptr{Kind: "arr", Ref: r, Root: t, Typ: ptrT}
 		// zero-initialised backing array
 		e.initBacking(st, r, at.Elem())
